@@ -38,7 +38,7 @@ FLOORS = {"quick": {"evaluations": 500, "distinct_nontrivial": 200,
                     "counters": {"compute_calls": 700, "persist_calls": 300, "optimize_calls": 300, "collections_compared": 700,
                                  "scheduler_processes": 8, "scheduler_executor": 60, "traverse_false": 60, "calls_with_repeated_collection": 40, "calls_with_only_bare_collections_repeated": 20,
                                  "dataclass_nodes": 150, "iterator_nodes": 150}},
-          "thorough": {"evaluations": 12000, "distinct_nontrivial": 7000, "counters": {"compute_calls": 18000}}}
+          "thorough": {"evaluations": 12000, "distinct_nontrivial": 5000, "counters": {"compute_calls": 18000}}}
 EXHAUSTIVE_SPACE = None
 CLAIM = ("For every generated argument structure dask.compute returned the same nesting with every collection replaced by "
          "the harness reference value and every other leaf unchanged; persist/optimize returned collections of the same type "
